@@ -116,6 +116,14 @@ def schedules(fam):
                   {"op": "reset", "acc": ["e"], "settle": True}, {"op": "reset", "acc": ["e"], "settle": True}]
         steps += [{"op": "reply", "t": "access", "pick": 3, "out": "deny", "settle": True}] * 4 + [Q]
         out.append(S(fam, "many", steps))
+    if fam == "life":
+        # Stop while a get response is queued on the cache and the connection's dispose is queued on the connection:
+        # the late Loaded closure runs behind the dispose closure, after the cache workers were stopped
+        out.append(S(fam, "stoplate", [opn("c1"), sub("c1", "a"), conn("c1"), cache("a"), reply("access", "a"), reply("get", "a"),
+                                       {"op": "stop"}, {"op": "start"}, opn("c2"), sub("c2", "a"), Q]))
+        out.append(S(fam, "lostlate", [opn("c1"), opn("c2"), sub("c1", "a"), sub("c2", "b"), conn("c1"), conn("c2"), cache("a"), cache("b"),
+                                       reply("get", "a"), reply("get", "b"), {"op": "mqlost"}, {"op": "open", "c": "c3"}, {"op": "start"},
+                                       opn("c4"), sub("c4", "a"), Q]))
     if fam == "cache":
         out.append(S(fam, "resub", [opn("c1"), sub("c1", "a"), Q, unsub("c1", "a"), Q, {"op": "time", "ms": 3000},
                                     sub("c1", "a"), Q, unsub("c1", "a"), Q, {"op": "time", "ms": 6000}, Q, sub("c1", "a"), Q]))
